@@ -442,6 +442,44 @@ func runC14(w *World, r *Report) {
 		r.OK("C14.fails-as-a-whole", fmt.Sprintf("success returns of the %d functions of the concat closure", len(closure)), closure[0].Pos(), "none reachable past a callee's error")
 	}
 
+	// ---- registry-read-only
+	r.Rule("C14.registry-read-only", "no function of the concat closure writes a package-level variable (the concat-function registry is filled at init and only looked up afterwards): a lookup that caches into the registry is an unsynchronised map write inside every concatenation", 1)
+	{
+		n := 0
+		for _, f := range closure {
+			instrs(f, func(in ssa.Instruction) {
+				var target ssa.Value
+				switch x := in.(type) {
+				case *ssa.MapUpdate:
+					target = x.Map
+				case *ssa.Store:
+					target = x.Addr
+				default:
+					return
+				}
+				for d := 0; d < 6 && target != nil; d++ {
+					switch y := target.(type) {
+					case *ssa.Global:
+						n++
+						r.Fail("C14.registry-read-only", fmt.Sprintf("%s writes package variable %s", w.fname(f), y.Name()), in.Pos(), "a function every concatenation runs writes shared package state without synchronisation: two streams concatenated at once race on it (fatal 'concurrent map writes'), and the outcome of a concatenation depends on which ran before")
+						return
+					case *ssa.UnOp:
+						target = y.X
+					case *ssa.FieldAddr:
+						target = y.X
+					case *ssa.IndexAddr:
+						target = y.X
+					default:
+						target = nil
+					}
+				}
+			})
+		}
+		if n == 0 {
+			r.OK("C14.registry-read-only", fmt.Sprintf("%d functions of the concat closure", len(closure)), closure[0].Pos(), "no store / map update rooted in a package-level variable")
+		}
+	}
+
 	// ---- parts-independent
 	r.Rule("C14.parts-independent", "ConcatMessages collects each part of a chunk under a test of that part only (shared with C18.chunk-parts-independent): 'text or tool calls' makes the result depend on how the provider happened to cut the chunks", 1)
 	{
